@@ -1835,8 +1835,18 @@ class Interp:
             j = z3.simplify(z3.If(i < 0, i + L.len, i))
             if L.items is not None and z3.is_int_value(j):
                 L.items[j.as_long()] = v
-            else:
-                L.items = None
+            elif L.items is not None:
+                # symbolic position in a literal list: contents become unknown
+                self.havoc_list(obj.oid, "lst")
+                L2 = self.st.lists[obj.oid]
+                self.assume(L2.len == L.len)
+            elif L.arrays is not None:
+                from . import codec
+                try:
+                    terms = codec.encode(self, L.spec, v)
+                    L.arrays = [z3.Store(a, j, t) for a, t in zip(L.arrays, terms)]
+                except Unsupported:
+                    L.arrays = codec.fresh_arrays(self, L.spec, "lst")
             return
         if self.world.setitem_ext(self, obj, key, v, node):
             return
